@@ -94,7 +94,7 @@ def run(chk):
                 "(final statement kind, fails?, argv shape, profile)")
     chk.assumptions = ["values printed by -c are restricted to kinds whose display is fixed (integers, strings, booleans, chars, arrays of those)"]
     chk.floor = 300
-    chk.rule += "; plus shebang lines with non-ASCII text / odd shapes, final bare-block statements, arguments with leading / trailing white space and a lone '-'"
+    chk.rule += "; plus shebang lines with non-ASCII text / odd shapes, final bare-block statements, arguments with leading / trailing white space and a lone '-'; argv read in a REPL session (before and after rejected and failing lines)"
     work = core.scratch_dir()
     try:
         n = 400 if quick else 4000
@@ -197,6 +197,18 @@ def run(chk):
                     chk.violation("argv|script", "script mode argv prints %r, expected %r (stderr %r)" % (rf["out"][:200], wf[:200], rf["err"][-120:]), {"args": args})
                 if rc["out"].decode("utf-8", "replace") != wc:
                     chk.violation("argv|command", "-c mode argv prints %r, expected %r (stderr %r)" % (rc["out"][:200], wc[:200], rc["err"][-120:]), {"args": args})
+        # argv in the REPL: nothing, on every line, also after lines that were rejected or failed
+        for rel in (False, True):
+            lines = ["puts(argv);", "puts(len(argv));", "zzz", "puts(len(argv));", "1 / 0", "let n = 0; while n < len(argv) { puts(argv[n]); n = n + 1; } puts(n);", "argv"]
+            outs, errs, rr = core.repl_session(lines, release=rel, timeout=60)
+            if outs is None:
+                chk.inconc("REPL session for argv did not finish")
+                continue
+            chk.observed(("argv", "repl", rel))
+            want = ["[]\n", "0\n", "", "0\n", "", "0\n", "[]\n"]
+            if outs != want:
+                k_ = next(i for i in range(len(want)) if outs[i] != want[i])
+                chk.violation("argv|repl", "in the REPL, line %r prints %r, expected %r (argv holds nothing there)" % (lines[k_], outs[k_][:200], want[k_]), {"lines": lines})
         # exit status through both modes
         for code in (0, 1, 7, 255):
             with open(path, "w") as f:
